@@ -32,7 +32,8 @@ def _npoly(item):
         corpus.first_model_lines(corpus.load(item)))))
 
 
-STRUCTURE_KEYS = ("item", "window", "waters", "damage", "rename", "chains", "input_name")
+STRUCTURE_KEYS = ("item", "window", "waters", "damage", "rename", "chains", "input_name",
+                  "lig_het", "lig_resname", "lig_drop_h")
 
 
 TITRATABLE = ("LYS", "ASP", "GLU", "HIS", "TYR", "CYS", "ARG")
@@ -200,6 +201,8 @@ def one_axis_sibling(rng, base):
         axes += ["ffout", "userff", "ligand"]
     if has("--userff"):
         axes += ["userff-content", "userff-content", "userff-content"]
+    if cfg.get("lig_het"):
+        axes += ["lig-h", "lig-h", "noligand", "noligand"]
     ax = rng.choice(axes)
     if ax == "ff" and has("--ff="):
         cur = [a for a in argv if a.startswith("--ff=")][0]
@@ -243,6 +246,21 @@ def one_axis_sibling(rng, base):
             "--neutraln", "--neutralc")]
         cfg.setdefault("files", {}).update({"userff": "custom-ff.dat",
                                             "usernames": "custom.names"})
+    elif ax == "lig-h":
+        # the ligand's hetero atoms with / without hydrogens (without: the usual PDB case,
+        # which makes the ligand charge non-integral and the run fail at the charge check)
+        if cfg.get("lig_drop_h"):
+            cfg.pop("lig_drop_h")
+        else:
+            cfg["lig_drop_h"] = True
+    elif ax == "noligand":
+        # same hetero atoms in the structure, but no --ligand (or with it again)
+        if has("--ligand"):
+            argv = drop("--ligand")
+            (cfg.get("files") or {}).pop("ligand", None)
+        else:
+            argv.append("--ligand={ligand}")
+            cfg.setdefault("files", {})["ligand"] = cfg["lig_het"]
     elif ax == "userff-content":
         # same file name, different (still valid, still neutral) parameters: a radius tweak
         fc = dict(cfg.get("file_content") or {})
